@@ -34,6 +34,7 @@ var c06Fixed = []string{
 	"\x00", "\x01\x02\x1f", "\x7f", "\b\f\v\a", "é", "ünïcode ✓", "日本語", "😀", "a😀b𝄞c", "\u2028", "x\u2028y\u2029z", "first line\u2028second line",
 	// the neighbours of the two separators the writer escapes: general punctuation and the bidirectional controls
 	"\u2026", "a\u2027b", "\u202a\u202b\u202c\u202d\u202e", "\u2066x\u2067y\u2068z\u2069", "\u2060\u200b\u200e\u200f", "\u2030\u203f",
+	"\U00022028", "a\U0001f028b\U00012029c", "\U00022029\u2029", "\U0001f029", "\U00100028", "\U00012028\U00102029",
 	"\ufffd", "\uffff", "\u0080", "\u07ff\u0800", "\U00010000\U0010ffff", "/", "\\/", "ends with backslash\\", "\\\\", "\\\\\\", "\"\\\"\\",
 	" ", "  leading and trailing  ", "0", "-1.5e3", "\\t\\r\\b\\f", "\\x41", "\\u12", "\\ud83d\\ude00", "\\ud83d", "%22%5C", "&quot;", "'single'",
 	"{\"type\":\"Delete\"}", "\",\"type\":\"Delete", "\\\",\\\"type\\\":\\\"Delete",
@@ -441,6 +442,13 @@ func init() {
 				// a single value whose language reference is the zero value (LangRefValue{Value: ...}, no tag at all)
 				c06Oracle(c, (pi+4)%len(c06Props), [][2][]byte{{[]byte(""), s}}, "json")
 				c06Oracle(c, (pi+4)%len(c06Props), [][2][]byte{{[]byte(""), s}}, "gob")
+			}
+			if i%6 == 0 {
+				// language references that differ only in letter case are different references
+				pairs := [][2][]byte{{[]byte("sr-Latn"), s}, {[]byte("sr-latn"), []byte("drugi tekst")}, {[]byte("EN"), []byte("third")}, {[]byte("en"), s}}
+				pairs = pairs[:2+c.R.Intn(3)]
+				c06Oracle(c, (pi+5)%len(c06Props), pairs, "json")
+				c06Oracle(c, (pi+5)%len(c06Props), pairs, "gob")
 			}
 			if i%7 == 0 {
 				p1 := [][2][]byte{{[]byte(c.R.Pick(c06Tags)), s}}
